@@ -106,6 +106,7 @@ type BufferObj struct {
 	Base    Term // offset of byte 0 within Content
 	Len     Term
 	Fresh   bool // never written
+	FreshT  *Term // after a havoc: symbolic 'never written' flag
 	ViewOf  *Cell // set when the buffer holds exactly the bytes [From, Upto) of that source stream
 	From    Term
 	Upto    Term
